@@ -337,6 +337,18 @@ pub fn run(cx: &mut Ctx) {
             }
             check(c, Kind::Tpl, &texs, false, false);
         });
+        // the top of the 16-bit dimension range (block alignment rounds these up to 65536)
+        cx.case("large_dimensions", |c| {
+            let mut rng = Rng::new(951);
+            for (w, h) in [(65_535usize, 1usize), (1, 65_535), (65_529, 2), (65_528, 1)] {
+                let aw = (w + 7) / 8 * 8;
+                let ah = (h + 3) / 4 * 4;
+                let palette: Vec<u16> = (0..256).map(|_| rng.u32() as u16).collect();
+                let payload: Vec<u8> = (0..aw * ah).map(|_| rng.below(256) as u8).collect();
+                let texs = vec![Tex { name: String::new(), width: w, height: h, format: 0, payload, palette }];
+                check(c, Kind::Tpl, &texs, false, false);
+            }
+        });
     }
     let n = cx.a.n(60_000, 400_000);
     for i in 0..n {
